@@ -22,7 +22,8 @@ EXPLANATION = (
     'ValueError. C01.c: symbols/_M/_K are written only by Modulator.__init__ and setConstellation, which derives M '
     'and K from the very table it stores (DSF: no public entry leaves them inconsistent). Not decided: '
     'demodulate(modulate(i)) == i, nearest-symbol decision, unit mean energy, distinct points (numeric).'
-    ' General rules also applied here (see DESIGN 10.5): validate-before-commit (no `raise` reachable after the object was already changed in a public mutator); input immutability (no in-place modification of an array argument, alias- and view-aware). C01.i: no integer range / index arithmetic in a narrow (8/16-bit) dtype.')
+    ' General rules also applied here (see DESIGN 10.5): validate-before-commit (no `raise` reachable after the object was already changed in a public mutator); input immutability (no in-place modification of an array argument, alias- and view-aware). C01.i: no integer range / index arithmetic in a narrow (8/16-bit) dtype.'
+    ' C01.j: modulate never subtracts from / negates a value built from the raw index array by integer arithmetic only (unsigned bit arrays wrap: found and repaired in BPSK.modulate, fix afba63b).')
 
 
 def _raising_tests(fn: FuncInfo, names: Set[str]) -> Set[int]:
@@ -307,6 +308,10 @@ def _check_detector_table_coupling(ctx: Ctx) -> None:
 
 
 MUTANTS = [
+    Mutant('revert-fix-afba63b-bpsk-unsigned-bits', FUND, 'BPSK.modulate',
+           [('replace', '1 - 2 * np.asarray(inputData).astype(int)', '1 - 2 * inputData')], r'C01\.j:BPSK\.modulate:unsigned-wrap'),
+    Mutant('benign-bpsk-float-promotion', FUND, 'BPSK.modulate',
+           [('replace', '1 - 2 * np.asarray(inputData).astype(int)', '1 - 2.0 * inputData')], None, benign=True),
     Mutant('gray-index-range-in-uint8', FUND, 'QAM._calculateGrayMappingIndexQAM',
            [('replace', 'np.arange(0, L, dtype=int)', 'np.arange(0, L, dtype=np.uint8)')], r'C01\.i:QAM\._calculateGrayMappingIndexQAM'),
     Mutant('benign-gray-index-range-in-int64', FUND, 'QAM._calculateGrayMappingIndexQAM',
